@@ -31,11 +31,11 @@ func BlockID(seqno uint32) (root, file [32]byte) {
 type Behaviour struct {
 	ThinkMinUs, ThinkMaxUs int // time between receiving a query and its answer becoming sendable
 	PongDelayUs            int
-	DropPermille           int // never answer a query
-	DupPermille            int // answer twice
-	BogusPermille          int // additionally emit an answer carrying an id nobody asked
+	DropPermille           int  // never answer a query
+	DupPermille            int  // answer twice
+	BogusPermille          int  // additionally emit an answer carrying an id nobody asked
 	CloseOnHandshake       bool // new connections: read the 256-byte handshake, then close in an orderly way
-	JunkPermille           int // additionally emit an unrelated packet (unknown magic, short answer, unsolicited pong)
+	JunkPermille           int  // additionally emit an unrelated packet (unknown magic, short answer, unsolicited pong)
 	NoPong                 bool
 	HoldInfoAfter          int // per connection: answers to getMasterchainInfo after this many are held ...
 	HoldInfoMs             int // ... for this long (the pool then refreshes while every head it knows is still 0)
@@ -99,6 +99,8 @@ type Server struct {
 	extraDelay  time.Duration // set by an answer builder: this answer becomes sendable later
 	// DupNext, when non-zero, makes the next answer go out with this many extra copies. One-shot.
 	DupNext int
+	// GarbageFromClient: framing errors on connections whose client-to-server stream was not altered in transit
+	GarbageFromClient []string
 	// MinSeqno: lookups below it are answered with "not in db" (the server is not an archive node)
 	MinSeqno uint32
 	// LieOuterLen, when non-zero, makes the next adnl.message.answer declare this many answer bytes
@@ -177,6 +179,10 @@ func (s *Server) OnBytes(c *core.Conn, b []byte) {
 		st.dead = true
 		s.W.Logf("srv%d: framing error on %s: %v", s.Index, c.Name, err)
 		s.W.Probe("server-saw-bad-frame")
+		if c.FaultsFiredDir(core.C2S) == 0 {
+			// nothing altered the client's bytes in transit: the client itself put a malformed frame on the wire
+			s.GarbageFromClient = append(s.GarbageFromClient, fmt.Sprintf("%s at %v: %v", c.Name, s.W.Now(), err))
+		}
 		c.ServerClose(0)
 	}
 }
@@ -212,6 +218,12 @@ func (s *Server) onPacket(c *core.Conn, p []byte) {
 		return
 	}
 	switch binary.LittleEndian.Uint32(p) {
+	case 0x445bab12: // tcp.authentificate nonce:bytes - the optional client authentication: answer with the server's nonce
+		h := sha256.Sum256(append([]byte("server-nonce"), p...))
+		w := &tlref.W{}
+		w.U32(0xe35d4ab6).Bytes(h[:]) // tcp.authentificationNonce nonce:bytes
+		s.W.Probe("auth-nonce-sent")
+		s.Push(c, w.B, s.W.Now(), "auth-nonce") // part of connecting, not a query: no think time
 	case MagicPing:
 		if len(p) != 12 || s.Beh.NoPong {
 			return
